@@ -378,5 +378,64 @@ def rule_V6(ctx):
         ctx.ok("ren_noeol", "returned offset < character count (or 0) on %d paths" % n_p)
 
 
-RULES = {"W8": rule_W8, "U5": rule_U5, "X5": rule_X5, "V4": rule_V4, "R9": rule_R9, "G4": rule_G4,
+def rule_G3(ctx):
+    ctx.begin("G3", floor=1, what="marks outside a spliced range keep their line")
+    prog = ctx.prog
+    f = prog.func("lbuf_replace", file="lbuf.c")
+    loop = None
+    for lp in f.walk():
+        if lp["k"] == "for" and any(lv_field(lv) and lv_field(lv)[1] == "mark" and lv_field(lv)[2]
+                                    for n, lv, op, rhs in stores(lp["body"])):
+            loop = lp
+    if loop is None:
+        raise AnalysisBroken("lbuf_replace: mark relocation loop not found")
+    pn = [p["name"] for p in f.params]
+    lb, sname, pos, ndel = pn
+    nins = None
+    for n in f.walk():
+        if n["k"] == "var" and n.get("init") is not None and is_call(strip_casts(n["init"]), "linecount"):
+            nins = n["name"]
+    if nins is None:
+        raise AnalysisBroken("lbuf_replace: inserted-line count not found")
+    rec = prog.record("lbuf")
+    NM = [x for x in rec["fields"] if x["name"] == "mark"][0]["arr_n"]
+    bad = None
+    n_eval = 0
+    for p_ in range(0, 4):
+        for d_ in range(0, 3):
+            for i_ in range(0, 3):
+                for has_s in (0, 1):
+                    if not has_s and i_:
+                        continue
+                    for m in range(0, 8):
+                        marks = {k: -1 for k in range(NM)}
+                        marks[0] = m
+                        env = {lb: {"mark": marks}, sname: (Ptr((0x61, 0)) if has_s else None),
+                               pos: p_, ndel: d_, nins: i_, "i": 0}
+                        try:
+                            Interp(prog).stmt(f, loop, env, 0)
+                        except Unsupported as e:
+                            raise AnalysisBroken("mark loop not evaluable: %s" % e)
+                        n_eval += 1
+                        got = marks[0]
+                        if m < p_:
+                            want = m
+                        elif m >= p_ + d_:
+                            want = m + i_ - d_
+                        else:
+                            continue       # inside the replaced range: not stated by the property
+                        if got != want and bad is None:
+                            bad = (m, p_, d_, i_, got, want)
+                        if any(marks[k] != -1 for k in range(1, NM)) and bad is None:
+                            bad = ("unset", p_, d_, i_, "set", "unset")
+    if bad:
+        ctx.violation("lbuf_replace", "a mark outside the edited range follows its line",
+                      "mark on line %s, replacing %d line(s) at %d by %d: the mark becomes %s, its line is "
+                      "now %s" % (bad[0], bad[2], bad[1], bad[3], bad[4], bad[5]), f.loc(loop))
+    else:
+        ctx.ok("lbuf_replace", "marks before the range stay, marks after it shift by n_ins - n_del "
+               "(%d cases by abstract evaluation of the relocation loop)" % n_eval, loc=f.loc(loop))
+
+
+RULES = {"G3": rule_G3, "W8": rule_W8, "U5": rule_U5, "X5": rule_X5, "V4": rule_V4, "R9": rule_R9, "G4": rule_G4,
          "N6": rule_N6, "V6": rule_V6}
